@@ -852,7 +852,8 @@ def inverse_lookup_by_equality(ctx, rule):
       if p0 not in txt:
         continue
       other = sides[1] if txt[0] == p0 else sides[0]
-      about_reg = any(isinstance(x, ast.Attribute) and x.attr in ('wrapped', 'wrapper') for x in ast.walk(other)) or \
+      about_reg = any((isinstance(x, ast.Attribute) and x.attr in ('wrapped', 'wrapper')) or (isinstance(x, ast.Name) and x.id in ('wrapped', 'wrapper'))
+                      for x in ast.walk(other)) or \
           (isinstance(other, ast.Name) and any(isinstance(a, ast.Assign) and u(a.targets[0]) == other.id and
                                                any(isinstance(x, ast.Attribute) and x.attr in ('wrapped', 'wrapper') for x in ast.walk(a.value))
                                                for a in walk_local(f.node)))
